@@ -47,6 +47,7 @@ Clause(e) ==
     [] e.op = "observers" ->     \* phase 1: A attached twice and B once; phase 2: A detached
          IF e.ok /\ Evs(e.out.p1.a) = Evs(e.out.p1.hook) /\ Evs(e.out.p1.b) = Evs(e.out.p1.hook) /\ Len(e.out.p1.hook) > 0
                /\ e.out.p2.a = <<>> /\ Evs(e.out.p2.b) = Evs(e.out.p2.hook) /\ Len(e.out.p2.hook) > 0
+               /\ Evs(e.out.p3.a) = Evs(e.out.p3.hook) /\ Evs(e.out.p3.b) = Evs(e.out.p3.hook) /\ Len(e.out.p3.hook) > 0      \* phase 3: A attached again
                /\ e.out.listeners = <<1, 2, 1>>
          THEN "ok" ELSE "attach-detach"
     [] e.op = "cc" ->
